@@ -281,7 +281,7 @@ theorem holds_grow (st : St) (k b e : Nat) : holds (growBlocks st k) b e ↔ hol
     exact ⟨h0, blk, d, grow_old st k _ blk h1, h2, h3⟩
 
 theorem blkOK_default (Z : Setting) (hZ : Z.OK) (b : Nat) (hb : b < Z.S.n) : BlkOK Z b {} := by
-  refine ⟨?_, fun h => by simp at h, rfl, fun h => by simp at h, fun h => by simp at h⟩
+  refine ⟨?_, fun h => by simp at h, rfl, fun h => by simp at h, fun h => by simp at h, fun h => by simp at h⟩
   show false = _
   rw [show blkEsis ({} : Block) = [] from rfl]
   exact (hZ.decNil b hb).symm
@@ -311,21 +311,16 @@ theorem simB_grow (Z : Setting) (hZ : Z.OK) (st : St) (rx : Session.ORx) (hsim :
 
 /-! ### the codec contract of the link, and the allocation step -/
 
-/-- the ESI is in the decoder's table (`Session.pushCore`'s `stored`) -/
-def StoredEsi (Z : Setting) (b esi : Nat) : Prop :=
-  (match Z.oc.ks[b]? with
-    | none => false
-    | some k => decide (esi < Session.shardsOf Z.oc.scheme k Z.oc.p) || Z.oc.scheme == .raptorq) = true
-
 /-- WHAT THE LINK ASSUMES OF THE BLOCK DECODERS (a contract on `Params.codec` and the object's symbols, like `GSess.Laws.codec`):
-    `Setting.dec` IS the decodability of the codec over the set of ESIs a decoder holds. -/
+    `Setting.dec` IS the decodability of the codec over the set of ESIs a decoder holds.  Only REACHABLE decoder states are constrained
+    (`ReachBlk`: built by `init`, fed genuine symbols). -/
 structure CodecDec (Z : Setting) : Prop where
   /-- `BlockDecoder::init` on a block of the object succeeds; the new decoder holds no symbol -/
   init : ∀ (blk : Block) (b bs : Nat), b < Z.S.n → blk.initialized = false →
     ∃ b', blk.init Z.P.codec Z.S.o (Z.S.K b) bs b = .ok b' ∧ blkEsis b' = []
   /-- `BlockDecoder::push` of a genuine symbol with an ESI of the table: the decoder holds that ESI too; the block is completed iff
       `dec` says the held ESIs suffice, and then the source block is there -/
-  push : ∀ (blk blk' : Block) (b esi : Nat), b < Z.S.n → blk.dec.isSome = true → blk.completed = false → StoredEsi Z b esi →
+  push : ∀ (blk blk' : Block) (b esi : Nat), b < Z.S.n → ReachBlk Z b blk → blk.completed = false → StoredEsi Z b esi →
     blk.push Z.P.codec (Z.S.sym b esi) esi = some blk' →
     (∀ x, x ∈ blkEsis blk' ↔ x = esi ∨ x ∈ blkEsis blk) ∧ blk'.completed = Z.dec (Z.S.K b) Z.oc.p (blkEsis blk') ∧
     (blk'.completed = true → blk'.sourceBlock.isSome = true)
@@ -582,6 +577,7 @@ theorem store_tail (Z : Setting) (hZ : Z.OK) (hC : CodecDec Z) (hn : Z.S.n ≠ 0
     (hc : sg.cache = st.cache) (hcs : sg.cacheSize = st.cacheSize) (hbwe : sg.bw = st.bw)
     (hsk : sbn = sg.blocksOffset + k) (hsbn : sbn < Z.S.n) (hk : k < sg.blocks.length)
     (hb1esis : ∀ e, e ∈ blkEsis b1 ↔ holds sg sbn e) (hb1bok : BOK Z.S sbn b1) (hb1dec : b1.dec.isSome = true)
+    (hb1r : ReachBlk Z sbn b1)
     (hb1c : b1.completed = false) (hb1ini : b1.initialized = true) (hb1size : b1.blockSize = Z.oc.blen.getD sbn 0)
     (hst : StoredEsi Z sbn esi) (hpay : payload = Z.S.sym sbn esi) (hpush : b1.push Z.P.codec payload esi = some blk')
     (h : (if blk'.completed then writeBlocks Z.P { sg with nbAlloc := n1, totalAlloc := t1, blocks := sg.blocks.set k blk' } sbn
@@ -591,14 +587,14 @@ theorem store_tail (Z : Setting) (hZ : Z.OK) (hC : CodecDec Z) (hn : Z.S.n ≠ 0
         { rx with got := if !(rx.got.contains (sbn, esi)) then (sbn, esi) :: rx.got else rx.got })) := by
   subst hsk
   rw [hpay] at hpush
-  obtain ⟨hmem, hcomp, hsrc⟩ := hC.push b1 blk' _ esi hsbn hb1dec hb1c hst hpush
+  obtain ⟨hmem, hcomp, hsrc⟩ := hC.push b1 blk' _ esi hsbn hb1r hb1c hst hpush
   obtain ⟨b2, hp2, hd2, hsz2, hini2⟩ := push_shape Z.P.codec b1 (Z.S.sym (sg.blocksOffset + k) esi) esi hb1dec hb1c
   have hbe : b2 = blk' := by rw [hpush] at hp2; exact (Option.some.inj hp2).symm
   subst hbe
   have hok : BlkOK Z (sg.blocksOffset + k) b2 :=
     ⟨hcomp, hsrc, by rw [hini2, hb1ini, hd2],
       (fun _ hnil => by have := (hmem esi).mpr (.inl rfl); rw [hnil] at this; exact absurd this (List.not_mem_nil)),
-      (fun _ => by rw [hsz2, hb1size])⟩
+      (fun _ => by rw [hsz2, hb1size]), (fun _ => .push b1 b2 esi hb1r hst hpush)⟩
   have hsim2 := simB_store Z sg rx hsimg k n1 t1 b1 b2 esi hk hb1esis hmem hok
   have hbok2 : BOK Z.S (sg.blocksOffset + k) b2 := blockOK_push Z.P.codec (hZ.laws.codec _ hsbn) b1 b2 esi hb1bok hpush
   have hg1 : GInv Z.S { sg with nbAlloc := n1, totalAlloc := t1 } :=
@@ -719,8 +715,8 @@ theorem blockStep_of_contract (Z : Setting) (hZ : Z.OK) (hC : CodecDec Z) : Bloc
   simp only [Prod.mk.injEq] at hquad
   have hpart : Part Z.S st := ⟨hquad.1, hquad.2.1, hquad.2.2.1, hquad.2.2.2⟩
   have hks : Z.oc.ks.isEmpty = false := by
-    have := hZ.nblocks
-    simp [Array.isEmpty]; omega
+    have : Z.oc.ks.size ≠ 0 := by rw [hZ.nblocks]; exact hn
+    simp [Array.isEmpty, this]
   have hwrit := hsim.written
   have hkk : Z.oc.ks[pid'.sbn]? = some (Z.S.K pid'.sbn) := hZ.ks _ hsbn
   have hst2 : (decide (pid'.esi < Session.shardsOf Z.oc.scheme (Z.S.K pid'.sbn) Z.oc.p) || Z.oc.scheme == .raptorq) = true := by
@@ -729,7 +725,7 @@ theorem blockStep_of_contract (Z : Setting) (hZ : Z.OK) (hC : CodecDec Z) : Bloc
   unfold pushToBlock2 at h
   split at h
   rotate_left
-  · rename_i hne; exact absurd ⟨ho, htl⟩ (fun hh => hne _ _ hh.1 hh.2)
+  · rename_i hne; exact absurd htl (hne _ _ ho)
   rename_i o tl ho' htl'
   have eo : o = Z.S.o := by rw [ho] at ho'; simpa using ho'.symm
   have et : tl = Z.S.T.length := by rw [htl] at htl'; simpa using htl'.symm
@@ -814,13 +810,14 @@ theorem blockStep_of_contract (Z : Setting) (hZ : Z.OK) (hC : CodecDec Z) : Bloc
     have hnolim : ¬ ((rx.got.any fun x => x.1 == pid'.sbn) = false ∧ 2 ≤ (Session.distinctSbns rx.got).length ∧
         Z.rc.maxSize < Session.allocBytes Z.oc.blen rx.got + Z.oc.blen.getD pid'.sbn 0) ∧
         ∃ n1 t1, sa = { sg with nbAlloc := n1, totalAlloc := t1 } ∧ (∀ e, e ∈ blkEsis b1 ↔ holds sg pid'.sbn e) ∧
-          b1.dec.isSome = true ∧ b1.completed = false ∧ b1.initialized = true ∧ b1.blockSize = Z.oc.blen.getD pid'.sbn 0 := by
+          b1.dec.isSome = true ∧ b1.completed = false ∧ b1.initialized = true ∧ b1.blockSize = Z.oc.blen.getD pid'.sbn 0 ∧
+          ReachBlk Z pid'.sbn b1 := by
       rcases alloc_outcome Z hZ hC sg pid' blk _ hpartg hsbn hsbl hblen _ heq with ⟨hini, hr'⟩ | ⟨_, _, hr'⟩ | ⟨hini, hlim, b', hb', he, hr'⟩
       · have h1e : sa = sg := by cases hr'; rfl
         have h2e : b1 = blk := by cases hr'; rfl
         subst h1e; subst h2e
         have hd : b1.dec.isSome = true := by rw [← hB.ini]; exact hini
-        refine ⟨fun hh => by rw [hany, hini] at hh; cases hh.1, sa.nbAlloc, sa.totalAlloc, rfl, ?_, hd, h3', hini, hB.size hd⟩
+        refine ⟨(fun hh => by rw [hany, hini] at hh; exact absurd hh.1 (by simp)), sa.nbAlloc, sa.totalAlloc, rfl, ?_, hd, h3', hini, hB.size hd, hB.reach hd⟩
         intro e
         have := mem_blkEsis_iff_holds sa _ b1 hblk e
         rw [e0g] at this; exact this
@@ -831,7 +828,7 @@ theorem blockStep_of_contract (Z : Setting) (hZ : Z.OK) (hC : CodecDec Z) : Bloc
         subst h2e
         obtain ⟨s1, s2, s3, s4⟩ := init_shape Z.P.codec blk Z.S.o _ _ _ b1 hini hb'
         refine ⟨fun hh => hlim ⟨by rw [← hcnt]; exact hh.2.1, by rw [hsimg.maxSz, ← hZ.max, ← hbytes]; exact hh.2.2⟩,
-          _, _, h1e, ?_, s1, by rw [s4]; exact h3', s2, s3⟩
+          _, _, h1e, ?_, s1, by rw [s4]; exact h3', s2, s3, .init blk b1 _ hini h3' hb'⟩
         intro e
         rw [he]
         simp only [List.not_mem_nil, false_iff]
@@ -840,7 +837,7 @@ theorem blockStep_of_contract (Z : Setting) (hZ : Z.OK) (hC : CodecDec Z) : Bloc
         rw [this] at q1; cases q1
         have := hB.ini
         rw [hini, q2] at this; cases this
-    obtain ⟨hnl, n1, t1, hsa, hb1esis, hb1dec, hb1c, hb1ini, hb1size⟩ := hnolim
+    obtain ⟨hnl, n1, t1, hsa, hb1esis, hb1dec, hb1c, hb1ini, hb1size, hb1r⟩ := hnolim
     subst hsa
     rw [pc_store _ _ _ _ _ hks h1' h2' hdone' hnl _ hkk hst2]
     have hb1bok : BOK Z.S pid'.sbn b1 := bok_allocBlock Z.P Z.S hZ.laws _ _ pid' blk hpartg hsbn hsbl hbokblk heq
@@ -848,7 +845,7 @@ theorem blockStep_of_contract (Z : Setting) (hZ : Z.OK) (hC : CodecDec Z) : Bloc
     · cases h
     · rename_i blk' hpush
       exact store_tail Z hZ hC hn st sg st1 b os rx pid'.sbn pid'.esi (pid'.sbn - st.blocksOffset) n1 t1 p.payload b1 blk' hg hr hsimg
-        hgr.1 hhdg (by rw [fst]; exact hrec) fwr ffd fout fc fcs fbw e0g.symm hsbn hkl hb1esis hb1bok hb1dec hb1c hb1ini hb1size
+        hgr.1 hhdg (by rw [fst]; exact hrec) fwr ffd fout fc fcs fbw e0g.symm hsbn hkl hb1esis hb1bok hb1dec hb1r hb1c hb1ini hb1size
         hstored hpay hpush h
 
 end Flute.Link
